@@ -163,6 +163,7 @@ fn splitmix(x: &mut u64) -> u64 {
 }
 
 #[derive(Clone)]
+#[allow(dead_code)]
 struct Work {
     kind: usize,
     p: usize,
@@ -201,89 +202,95 @@ fn same(a: &[[u64; 3]], b: &[[u64; 3]]) -> bool {
         && a.iter().zip(b).all(|(x, y)| (0..3).all(|k| x[k] == y[k] || (f64::from_bits(x[k]).is_nan() && f64::from_bits(y[k]).is_nan())))
 }
 
+fn out_bits(o: [f64; 3]) -> [u64; 3] {
+    [o[0].to_bits(), o[1].to_bits(), o[2].to_bits()]
+}
+
+/// one unit of work for a thread: an instance (fresh, or handed over half-fed) and the ticks to feed it
+struct Job {
+    label: String,
+    ind: Ind,
+    scalar: bool,
+    reset_at: usize,
+    ticks: Vec<Bar>,
+    expected: Vec<[u64; 3]>,
+}
+
 fn main() {
     let args: Vec<String> = std::env::args().collect();
     let seed: u64 = args.get(1).and_then(|s| s.parse().ok()).unwrap_or(1);
     let threads: usize = args.get(2).and_then(|s| s.parse().ok()).unwrap_or(4);
-    let per_thread = if threads <= 4 { 6 } else { 2 };
-    let n_ticks = if threads <= 4 { 14 } else { 10 };
+    let per_thread = if threads <= 4 { 3 } else { 1 };
+    let n_ticks = if threads <= 4 { 10 } else { 8 };
     let mut s = seed ^ 0xC05C05;
-    // workloads: all 22 kinds spread over the (thread, slot) grid, rotated by the seed
     let rot = (splitmix(&mut s) % 22) as usize;
-    let mut works: Vec<Vec<Work>> = vec![];
+    let mut jobs: Vec<Vec<Job>> = (0..threads).map(|_| vec![]).collect();
+    // (1) instances owned by one thread from birth: kinds spread over the (thread, slot) grid
     for t in 0..threads {
-        let mut v = vec![];
         for i in 0..per_thread {
             let kind = (rot + t * per_thread + i) % 22;
             let p = 1 + (splitmix(&mut s) % 4) as usize;
             let scalar = splitmix(&mut s) % 2 == 0;
             let reset_at = if splitmix(&mut s) % 3 == 0 { (splitmix(&mut s) % n_ticks as u64) as usize } else { usize::MAX };
-            v.push(Work { kind, p, scalar, reset_at, ticks: ticks(&mut s, n_ticks) });
+            let w = Work { kind, p, scalar, reset_at, ticks: ticks(&mut s, n_ticks) };
+            let expected = feed(&mut make(kind, p), &w, 0);
+            jobs[t].push(Job { label: format!("own kind {} p {}", kind, p), ind: make(kind, p), scalar, reset_at, ticks: w.ticks, expected });
         }
-        works.push(v);
     }
-    // solo replay first, single-threaded
-    let expected: Vec<Vec<Vec<[u64; 3]>>> = works.iter().map(|v| v.iter().map(|w| feed(&mut make(w.kind, w.p), w, 0)).collect()).collect();
-    // original + clone pairs: a half-fed instance is cloned, the clone crosses to the next thread
-    let half = n_ticks / 2;
-    let mut clones: Vec<Option<(Ind, Work)>> = vec![];
-    for t in 0..threads {
-        let w = works[t][0].clone();
-        let mut ind = make(w.kind, w.p);
-        let mut w2 = w.clone();
-        w2.reset_at = usize::MAX;
-        let _ = feed(&mut ind, &Work { ticks: w2.ticks[..half].to_vec(), ..w2.clone() }, 0);
-        clones.push(Some((ind.clone(), w2)));
+    // (2) for EVERY kind: an instance is warmed up on the main thread and cloned; the original goes on on
+    // one thread, the clone on the next one, with DIFFERENT continuations, at the same time
+    let warm = 5;
+    let cont = if threads <= 4 { 5 } else { 4 };
+    for kind in 0..22 {
+        let p = 2 + (splitmix(&mut s) % 3) as usize;
+        let scalar = splitmix(&mut s) % 2 == 0;
+        let pre = ticks(&mut s, warm);
+        let (ca, cb) = (ticks(&mut s, cont), ticks(&mut s, cont));
+        let mut orig = make(kind, p);
+        let wpre = Work { kind, p, scalar, reset_at: usize::MAX, ticks: pre.clone() };
+        let _ = feed(&mut orig, &wpre, 0);
+        let clone = orig.clone();
+        // expectations from fresh solo replays
+        let exp = |c: &Vec<Bar>| -> Vec<[u64; 3]> {
+            let mut f = make(kind, p);
+            let mut all = pre.clone();
+            all.extend(c.iter().cloned());
+            let w = Work { kind, p, scalar, reset_at: usize::MAX, ticks: all };
+            feed(&mut f, &w, 0)[warm..].to_vec()
+        };
+        let (ea, eb) = (exp(&ca), exp(&cb));
+        let ta = kind % threads;
+        let tb = (kind + 1) % threads;
+        jobs[ta].push(Job { label: format!("original kind {} p {}", kind, p), ind: orig, scalar, reset_at: usize::MAX, ticks: ca, expected: ea });
+        jobs[tb].push(Job { label: format!("clone kind {} p {}", kind, p), ind: clone, scalar, reset_at: usize::MAX, ticks: cb, expected: eb });
     }
-    let clone_expected: Vec<Vec<[u64; 3]>> = clones
-        .iter()
-        .map(|c| {
-            let (_, w) = c.as_ref().unwrap();
-            let mut fresh = make(w.kind, w.p);
-            let all = feed(&mut fresh, w, 0);
-            all[half..].to_vec()
-        })
-        .collect();
+    let n_inst: usize = jobs.iter().map(|j| j.len()).sum();
     let (tx, rx) = mpsc::channel::<(usize, bool, String)>();
     let mut handles = vec![];
-    for t in 0..threads {
-        let my = works[t].clone();
-        let exp = expected[t].clone();
-        // the clone made for thread t is executed on thread t+1
-        let src = (t + threads - 1) % threads;
-        let (mut cl, clw) = clones[src].take().unwrap();
-        let clexp = clone_expected[src].clone();
+    for (t, mut my) in jobs.into_iter().enumerate() {
         let tx = tx.clone();
         handles.push(std::thread::spawn(move || {
-            // interleave the instances owned by this thread tick by tick
-            let mut inds: Vec<Ind> = my.iter().map(|w| make(w.kind, w.p)).collect();
+            // round-robin over the instances of this thread, one tick each
+            let longest = my.iter().map(|j| j.ticks.len()).max().unwrap_or(0);
             let mut outs: Vec<Vec<[u64; 3]>> = vec![vec![]; my.len()];
-            let n = my[0].ticks.len();
-            let mut cl_out = vec![];
-            for j in 0..n {
-                for (i, w) in my.iter().enumerate() {
-                    if j == w.reset_at {
-                        inds[i].reset();
+            for j in 0..longest {
+                for (i, job) in my.iter_mut().enumerate() {
+                    if j >= job.ticks.len() {
+                        continue;
                     }
-                    let b = &w.ticks[j];
-                    let o = if w.scalar { inds[i].scalar(b.c, b) } else { inds[i].bar(b) };
-                    outs[i].push([o[0].to_bits(), o[1].to_bits(), o[2].to_bits()]);
-                }
-                if j >= half {
-                    let b = &clw.ticks[j];
-                    let o = if clw.scalar { cl.scalar(b.c, b) } else { cl.bar(b) };
-                    cl_out.push([o[0].to_bits(), o[1].to_bits(), o[2].to_bits()]);
+                    if j == job.reset_at {
+                        job.ind.reset();
+                    }
+                    let b = job.ticks[j];
+                    let o = if job.scalar { job.ind.scalar(b.c, &b) } else { job.ind.bar(&b) };
+                    outs[i].push(out_bits(o));
                 }
             }
-            for (i, w) in my.iter().enumerate() {
-                if !same(&outs[i], &exp[i]) {
-                    let _ = tx.send((t, false, format!("thread {} slot {} kind {} p {} scalar {}: concurrent outputs differ from the solo replay", t, i, w.kind, w.p, w.scalar)));
+            for (i, job) in my.iter().enumerate() {
+                if !same(&outs[i], &job.expected) {
+                    let _ = tx.send((t, false, format!("thread {} {}: concurrent outputs differ from the solo replay", t, job.label)));
                     return;
                 }
-            }
-            if !same(&cl_out, &clexp) {
-                let _ = tx.send((t, false, format!("thread {}: clone (kind {} p {}) taken on the main thread and continued here differs from a fresh replay", t, clw.kind, clw.p)));
-                return;
             }
             let _ = tx.send((t, true, String::new()));
         }));
@@ -302,7 +309,7 @@ fn main() {
         let _ = h.join();
     }
     if bad.is_empty() && ok == threads {
-        println!("MIRI-OK seed={} threads={} instances={} ticks={}", seed, threads, threads * (per_thread + 1), n_ticks);
+        println!("MIRI-OK seed={} threads={} instances={} (22 original/clone pairs fed concurrently on different threads)", seed, threads, n_inst);
     } else {
         for m in &bad {
             println!("MIRI-MISMATCH seed={} threads={} {}", seed, threads, m);
